@@ -136,3 +136,46 @@ def platforms():
         p["cfg"].sort()
         p["log"].sort()
     return out
+
+
+# ---- declarations: capture the raw constructor arguments of every accessor ----------------------
+_DECL_INSTALLED = False
+
+
+def capture_declarations():
+    """Wrap GeckoStructAccessor.__init__ (from outside) so that every accessor remembers the raw
+    declaration it was built from (type, pos, bitpos, items, size, maxitems, rw) - the reference
+    codec works from that, not from the fields accessor.py derives."""
+    global _DECL_INSTALLED
+    if _DECL_INSTALLED:
+        return
+    from geckolib.driver import accessor as amod
+
+    orig = amod.GeckoStructAccessor.__init__
+
+    def init(self, struct_, tag, pos, type, bitpos, items, size, maxitems, rw):
+        self._decl = dict(tag=tag, pos=pos, type=type, bitpos=bitpos,
+                          items=(items.split("|") if isinstance(items, str) else (list(items) if items is not None else None)),
+                          size=size, maxitems=maxitems, rw=rw, cls=self.__class__.__name__)
+        orig(self, struct_, tag, pos, type, bitpos, items, size, maxitems, rw)
+
+    amod.GeckoStructAccessor.__init__ = init
+    _DECL_INSTALLED = True
+
+
+def table_modules():
+    """[(module name, 'cfg'|'log')] of every shipped config/log table module."""
+    out = []
+    for n in pack_module_names():
+        if "-cfg-" in n:
+            out.append((n, "cfg"))
+        elif "-log-" in n:
+            out.append((n, "log"))
+    return out
+
+
+def table_accessors(modname, kind, struct):
+    mod = pack_module(modname)
+    cls = mod.GeckoConfigStruct if kind == "cfg" else mod.GeckoLogStruct
+    obj = cls(struct)
+    return obj, obj.accessors
